@@ -283,7 +283,7 @@ def falsify_case(meta):
     # clean declaration silent
     if first_bad is None:
         window_image = {P.ref_eval(ref, i, 32) for i in range(200)}
-        if window_image == set(range(n)) and not lj and not rj:
+        if n <= 200 and window_image == set(range(n)) and not lj and not rj:
             bad = [nm for nm in names if 'plural-forms' in nm and not nm.startswith('unusual') and nm not in ('incorrect-number-of-plural-forms', 'inconsistent-number-of-plural-forms')]
             if bad:
                 return replay('clean-declaration-not-silent', tags=bad)
